@@ -20,8 +20,15 @@
 (* out.v (cls = first wallet with the same mnemonic and passphrase): the   *)
 (* stage-B replay resolves arguments and compares identities through it.   *)
 (*                                                                         *)
-(* Dev cfgs set ClassLevelMnemonic = TRUE: TLC must report NoSharedState,  *)
-(* FreshEntropy and Immutable violated (vacuity guard).                    *)
+(* pending (model only) splits a step in two for TLC's simulation mode     *)
+(* (SimNext: Pick a call, then Exec it); it is constant under MCNext.      *)
+(*                                                                         *)
+(* cfgs: _q (2 wallets, short chains), _t (2 wallets, longer paths and     *)
+(* chains), _t3 (3 wallets), _ti (2 wallets, every interleaving of         *)
+(* creations and queries: Interleave = TRUE), _sim (3 wallets, SimNext,    *)
+(* behaviour generator of stage B).  _dev_shared / _dev_fresh /            *)
+(* _dev_immutable set ClassLevelMnemonic = TRUE: TLC must report           *)
+(* NoSharedState, NewIsFresh and Immutable violated (vacuity guard).       *)
 (***************************************************************************)
 EXTENDS HDWallet, TLC, FiniteSets
 CONSTANTS MaxWallets, PassSel, Strengths, GivenSel, PathIdxSel, MaxPathLen, ChildIdxSel, MaxDepth, ScriptSel, Interleave
